@@ -856,16 +856,14 @@ theorem setItem_refines {κ : Nat → String} {s : State} (hinv : InvK κ s) (o 
     | ok sel =>
       simp only []
       obtain ⟨hpos, _⟩ := resolve_ok _ _ _ hres
-      split
-      · intro hc; cases hc
-      · have h0 : SetLoop κ s src sel [] s := ⟨rfl, rfl, rfl, fun _ _ => rfl, fun p hp => by simp at hp⟩
-        apply Post.mono (setItem_loop_refines hinv o src sel hpos (s.obj o).props [] s (by simp) h0)
-        intro r s' hq hr
-        have hl := hq hr
-        simp only [List.nil_append] at hl
-        refine ⟨sel, rfl, hl.objs, hl.syss, hl.cols, ?_⟩
-        intro c hc
-        simp [arrRows, hl.other c.buf hc]
+      have h0 : SetLoop κ s src sel [] s := ⟨rfl, rfl, rfl, fun _ _ => rfl, fun p hp => by simp at hp⟩
+      apply Post.mono (setItem_loop_refines hinv o src sel hpos (s.obj o).props [] s (by simp) h0)
+      intro r s' hq hr
+      have hl := hq hr
+      simp only [List.nil_append] at hl
+      refine ⟨sel, rfl, hl.objs, hl.syss, hl.cols, ?_⟩
+      intro c hc
+      simp [arrRows, hl.other c.buf hc]
 
 /-! ### `view[key] = value` for a new key (a literal) -/
 
